@@ -27,7 +27,8 @@ What the model cannot exhibit (DESIGN section 5):
 * the OS page cache / `fsync` ordering — the file is what was last written;
 * a periodic save that itself fails (`PersistenceWriteError` inside the saver task) — outside the
   fault positions the property quantifies over; see the note at `exit_clean`;
-* cancellation of the main coroutine itself while it is inside `stop`.
+* cancellation of the main coroutine itself while it is inside `__aenter__`, `disconnect` or `stop`
+  (cancellation while it is inside the *body* is the fault `bodyCancelled`, see `cancel_exit_clean`).
 -/
 import AioMySensors.Lemmas.Lifecycle
 
@@ -39,10 +40,21 @@ theorem save_interval_le_900 : Gen.saveInterval ≤ 900 := by decide
 
 theorem interval_le_900 : interval ≤ 900 := by decide
 
-/-- The expected exception is never `CancelledError`. -/
+/-- The expected exception is never a `CancelledError` leaked from awaiting the cancelled saver
+(`Exc.cancelled`).  The cancellation of the task running the body is a different exception
+(`Exc.bodyCancel`) and is expected exactly when the body was cancelled and no later step failed. -/
 theorem expected_not_cancelled (f : Faults) : expectedOutcome f ≠ some .cancelled := by
-  obtain ⟨a, b, c, d, e⟩ := f
-  cases a <;> cases b <;> cases c <;> cases d <;> cases e <;> decide
+  obtain ⟨a, b, c, d, e, g⟩ := f
+  cases a <;> cases b <;> cases c <;> cases d <;> cases e <;> cases g <;> decide
+
+/-- The body's cancellation is what has to propagate exactly when the body ran, was cancelled, and
+neither the disconnect nor the final save failed afterwards. -/
+theorem expected_bodyCancel_iff (f : Faults) :
+    expectedOutcome f = some .bodyCancel ↔
+      f.loadFails = false ∧ f.connectFails = false ∧ f.bodyCancelled = true ∧
+      f.disconnectFails = false ∧ f.finalSaveFails = false := by
+  obtain ⟨a, b, c, d, e, g⟩ := f
+  cases a <;> cases b <;> cases c <;> cases d <;> cases e <;> cases g <;> decide
 
 /-- **Leaving the context is clean**, for every fault combination, every schedule (hence every
 position of the saver when `stop` begins: not yet started, inside `open`/`write`/`close` of a save,
@@ -52,7 +64,9 @@ sleeping), every start time and initial file: once the context statement has com
 * if persistence was started, `stop` ran to its end — the final save completed and the file holds
   the registry as of exit — unless the final save itself failed, and then that error propagates;
 * the exception that propagates is exactly the failing step's (`expectedOutcome`): the final
-  save's, else the disconnect's, else the body's; never `CancelledError`.
+  save's, else the disconnect's, else the body's — its own exception, or the `CancelledError` of the
+  cancelled task running the body (`Exc.bodyCancel`, fault `bodyCancelled`); never a `CancelledError`
+  leaked from awaiting the cancelled saver (`Exc.cancelled`).
 
 (A *periodic* save failing inside the saver task is not a fault position of the property and is not
 a transition of the model; in the code it ends the saver task, and `stop` then re-raises that old
@@ -109,6 +123,56 @@ theorem connect_failure_leaves_nothing (f : Faults) (t v : Nat) (cs : List Choic
     rcases h3 hst with h | h
     · exact h
     · exact absurd h.1 (by simp [hfs])
+
+/-- **Leaving by cancellation is clean.**  The task running the context statement is cancelled while
+it is inside the body (load and connect succeeded).  For every schedule — hence every position of the
+saver at that moment — every start time and initial file, whatever the other fault flags: once the
+context statement has finished,
+* the context had been entered and `disconnect` was attempted (the cancellation does not skip it);
+* no saver task is alive (`stop` cancelled and awaited it; the saver's own `CancelledError` was
+  suppressed and did not replace or join the one in flight);
+* the final save was performed with the registry as of exit: it completed and the file holds that
+  registry — unless the final save itself failed, and then its error is what propagates;
+* what propagates is the final save's error, else the disconnect's error, else the body's
+  cancellation (`Exc.bodyCancel`) — in particular something always propagates (the cancellation is
+  never swallowed), and it is never the saver's leaked `CancelledError` (`Exc.cancelled`).
+`bodyRaises` is irrelevant here: a cancelled body does not get to raise (`bodyExit`). -/
+theorem cancel_exit_clean (f : Faults) (t v : Nat) (cs : List Choice)
+    (hl : f.loadFails = false) (hc : f.connectFails = false) (hb : f.bodyCancelled = true)
+    (hfin : (run (init f t v) cs).main = .finished) :
+    let s := run (init f t v) cs
+    s.entered = true ∧ s.disconnectTried = true ∧
+    s.saver.alive = false ∧
+    s.started = true ∧
+    (f.finalSaveFails = false → s.finalSaveDone = true ∧ s.file = .holds s.reg) ∧
+    s.outcome = (if f.finalSaveFails then some .saveErr
+                 else if f.disconnectFails then some .disconnectErr else some .bodyCancel) ∧
+    s.outcome ≠ none ∧ s.outcome ≠ some .cancelled := by
+  intro s
+  have hi : Lifecycle.Inv s := inv_run _ cs (inv_init f t v)
+  have hf : s.faults = f := faults_run _ cs
+  unfold Lifecycle.Inv at hi
+  rw [show s.main = .finished from hfin] at hi
+  obtain ⟨h1, h2, h3, h4, h5, h6, _⟩ := hi
+  rw [hf] at h3 h4 h5 h6
+  have hent : s.entered = true := by
+    cases he : s.entered with
+    | true => rfl
+    | false => exact absurd ((h6 hl).mp he) (by simp [hc])
+  have hst : s.started = true := by
+    cases hs : s.started with
+    | true => rfl
+    | false => exact absurd (h5 hs).1 (by simp [hl])
+  have hout : s.outcome = (if f.finalSaveFails then some .saveErr
+      else if f.disconnectFails then some .disconnectErr else some .bodyCancel) := by
+    rw [h4]; simp [expectedOutcome, bodyExit, hl, hc, hb]
+  refine ⟨hent, h2 hent, h1, hst, ?_, hout, ?_, h4 ▸ expected_not_cancelled f⟩
+  · intro hfs
+    rcases h3 hst with h | h
+    · exact h
+    · exact absurd h.1 (by simp [hfs])
+  · rw [hout]; repeat' split
+    all_goals simp
 
 /-- A failing load propagates before anything was started. -/
 theorem load_failure_starts_nothing (f : Faults) (t v : Nat) (cs : List Choice)
@@ -223,6 +287,26 @@ example :
       [.main, .main, .main, .saver true, .saver true, .mutate, .main, .main, .main, .saver false, .saver false,
        .main, .main, .main, .main]
     s.main = .finished ∧ s.saver = .cancelled ∧ s.file = .holds 1 ∧ s.reg = 1 ∧ s.outcome = some .disconnectErr := by
+  decide
+
+/-- The task running the context is cancelled while the saver is inside `write` (the registry was
+changed in the body): disconnect, saver gone, final save of the changed registry, and the body's
+cancellation propagates.  The hypotheses of `cancel_exit_clean` are satisfiable. -/
+example :
+    let s := run (init { bodyCancelled := true })
+      [.main, .main, .main, .saver true, .saver true, .mutate, .main, .main, .main, .saver false, .saver false,
+       .main, .main, .main, .main]
+    s.main = .finished ∧ s.disconnectTried = true ∧ s.saver = .cancelled ∧ s.finalSaveDone = true ∧
+    s.file = .holds 1 ∧ s.reg = 1 ∧ s.outcome = some .bodyCancel := by
+  decide
+
+/-- Cancelled body, then the disconnect fails: the disconnect's error replaces the cancellation; with
+`bodyRaises` set as well the cancellation still wins over the body's own exception. -/
+example :
+    let sched : List Choice := [.main, .main, .main, .main, .main, .main, .saver true, .main, .main, .main, .main]
+    (run (init { bodyCancelled := true, disconnectFails := true }) sched).outcome = some .disconnectErr ∧
+    (run (init { bodyCancelled := true, bodyRaises := true }) sched).outcome = some .bodyCancel ∧
+    (run (init { bodyCancelled := true, finalSaveFails := true }) sched).outcome = some .saveErr := by
   decide
 
 /-- Connect fails while the saver sleeps. -/
